@@ -1,0 +1,7 @@
+//go:build !verif
+
+package cache
+
+func verifYield(string) {}
+
+func verifYield2(string, string) {}
